@@ -293,6 +293,38 @@ fn random_strategy() -> impl Strategy<Value = CrcCase> {
     })
 }
 
+/// the libFuzzer input format of target `crc_flip`: bytes 0-1 select a corpus entry, every following pair of bytes a bit
+/// to flip after the 4 fixed header octets; only error classes the CRC-16 is designed to catch are produced
+pub fn fuzz_case(data: &[u8]) -> Option<CrcCase> {
+    if data.len() < 4 {
+        return None;
+    }
+    let c = corpus();
+    let e = &c[((data[0] as usize) << 8 | data[1] as usize) % c.len()];
+    let nbits = e.enc.len() as u32 * 8;
+    let span = nbits - 32;
+    let mut flips: Vec<u32> = data[2..]
+        .chunks(2)
+        .take(9)
+        .map(|p| {
+            let r = (p[0] as u32) << 8 | *p.get(1).unwrap_or(&0) as u32;
+            32 + ((r * span) >> 16)
+        })
+        .collect();
+    flips.sort();
+    flips.dedup();
+    let w = flips.len();
+    let burst = flips.last().unwrap() - flips[0] < 16;
+    if !(w == 1 || w == 2 || w % 2 == 1 || burst) {
+        return None;
+    }
+    Some(CrcCase {
+        entry: e.name.clone(),
+        flips,
+        class: "fuzz".into(),
+    })
+}
+
 pub fn run(ctx: &mut Ctx) {
     ctx.rule = "corpus = every PDU type x {Small,Large} x 4 id-width combinations with the CRC on (each encoding < 4095 bytes). Per entry, on all bits after \
 octet 4 (CRC field included): every single-bit flip; every pair of flips at distance <= 64; every burst pattern (first and last bit flipped, any interior) of length <= 8 \
@@ -375,4 +407,11 @@ distinct by (entry, pattern)."
     let n = ctx.tier.pick(200_000u64, 3_000_000);
     ctx.drive_proptest(&part, random_strategy(), n, 500);
     ctx.section.clear();
+    if ctx.tier == Tier::Thorough {
+        let c = crate::fuzzrun::Campaign { target: "crc_flip", runs: 1_000_000, max_len: 24 };
+        crate::fuzzrun::campaign_into_ctx(ctx, &c, |bytes| match fuzz_case(bytes) {
+            Some(case) => (CrcPart.run(&case).fail, serde_json::to_value(&case).unwrap(), "crc"),
+            None => (None, serde_json::Value::Null, "crc"),
+        });
+    }
 }
